@@ -119,9 +119,10 @@ chk('C19', 'fault_enumeration',
     'substitutions over whole seeds (every byte in thorough), all pairs (triples in thorough) of Ehdr count/size/offset/index fields x '
     '{0,1,max}, random multi-field corruption. The exception classifier requires ELFError from the constructor; the enumeration battery '
     'runs under a logical step meter (function entries + taken jumps + traced stream operations) that raises inside the call, and a '
-    'tracemalloc peak bound on every 4th case.',
-    'Logical-step and tracemalloc budgets calibrated on the seeds; BytesIO inputs; any exception may end a battery step.',
-    'fault injection (byte/field/truncation enumeration) + exception classifier + logical step meter + allocation meter', 'DESIGN.md section 4 C19')
+    'tracemalloc peak bound on every 4th case; every other measured case reads a real file on disk whose read(n) requests are recorded with '
+    'the requesting library frame and served clipped to the file size (the request beyond the bound is the observation).',
+    'Logical-step and tracemalloc budgets calibrated on the seeds; BytesIO inputs and real files; any exception may end a battery step.',
+    'fault injection (byte/field/truncation enumeration) + exception classifier + logical step meter + allocation meter + read-request monitor on real files', 'DESIGN.md section 4 C19')
 chk('C10', 'model_checking',
     'History + executable model, the model of a query being the same query on a freshly opened object. (a) Bounded-exhaustive '
     'breadth-first search over sequences of a 35-55 operation alphabet on small generated DWARF sets with deduplication on the abstract '
